@@ -51,14 +51,41 @@ class St:
 class HierDriver(explore.Driver):
     name = "hierarchy-history"
 
-    def __init__(self, levels=3, seed=0, noapply=True, manual_ids=(0, 1)):
+    def __init__(self, levels=3, seed=0, noapply=True, manual_ids=(0, 1),
+                 root="dict", scratch=None):
         self.levels = levels      # number of datasets incl. root
         self.seed = seed
         self.noapply = noapply
         self.manual_ids = manual_ids
+        self.root = root
+        self.scratch = scratch
+        self._rootfile = None
 
     def config(self):
-        return {"levels": self.levels, "seed": self.seed}
+        return {"levels": self.levels, "seed": self.seed, "root": self.root}
+
+    def _root_path(self, data):
+        """The hdf5 root is written once per process and opened per state."""
+        import os
+        from dclab.rtdc_dataset.writer import RTDCWriter
+        p = self.scratch / f"c04_root_{os.getpid()}.rtdc"
+        if self._rootfile != p or not p.exists():
+            with RTDCWriter(p, mode="reset") as hw:
+                hw.store_metadata({"experiment": {"sample": "vf",
+                                                  "run index": 1},
+                                   "imaging": {"frame rate": 1000.0,
+                                               "pixel size": 0.34}})
+                for k, v in data.items():
+                    hw.store_feature(k, v)
+            self._rootfile = p
+        return p
+
+    def close(self, st):
+        if self.root == "hdf5":
+            try:
+                st.ds[0].close()
+            except Exception:
+                pass
 
     def fresh(self):
         import dclab
@@ -67,7 +94,10 @@ class HierDriver(explore.Driver):
             dclab.register_temporary_feature(TMP, is_scalar=True)
         st = St()
         st.data = root_data(self.seed)
-        st.ds = [dclab.new_dataset(dict(st.data))]
+        if self.root == "hdf5":
+            st.ds = [dclab.new_dataset(self._root_path(st.data))]
+        else:
+            st.ds = [dclab.new_dataset(dict(st.data))]
         st.ds[0].config["imaging"]["frame rate"] = 1000.0
         for _ in range(self.levels - 1):
             st.ds.append(dclab.new_dataset(st.ds[-1]))
@@ -310,13 +340,18 @@ class HierDriver(explore.Driver):
 def run(ctx):
     parts = []
     viols = []
+    hd = dict(root="hdf5", scratch=ctx.scratch, seed=ctx.seed)
     if ctx.quick:
         plan = [("3-levels", HierDriver(levels=3, seed=ctx.seed), 3, 1),
+                ("hdf5-root", HierDriver(levels=3, noapply=False,
+                                         manual_ids=(0,), **hd), 3, 0),
                 ("3-levels-refresh-only",
                  HierDriver(levels=3, seed=ctx.seed, noapply=False,
                             manual_ids=(0,)), 4, 0)]
     else:
         plan = [("3-levels", HierDriver(levels=3, seed=ctx.seed), 4, 2),
+                ("hdf5-root", HierDriver(levels=3, noapply=False, **hd),
+                 4, 1),
                 ("3-levels-refresh-only",
                  HierDriver(levels=3, seed=ctx.seed, noapply=False), 5, 1),
                 ("4-levels-refresh-only",
@@ -347,5 +382,6 @@ def run(ctx):
 
 def replay(case, ctx):
     c = case["config"]
-    drv = HierDriver(levels=c["levels"], seed=c["seed"])
+    drv = HierDriver(levels=c["levels"], seed=c["seed"],
+                     root=c.get("root", "dict"), scratch=ctx.scratch)
     return explore.replay(drv, case)
